@@ -39,13 +39,13 @@ func any(ev map[string]int, ks ...string) bool {
 }
 
 var profMap = &Profile{
-	Name: "C01-map", MinOps: 1, MaxOps: 60, NColls: 3, MemPct: 25, BigKeys: true, BigVals: true, EndOnly: 25, Bulk: 2,
+	Name: "C01-map", MinOps: 1, MaxOps: 60, NColls: 3, MemPct: 25, BigKeys: true, BigVals: true, EndOnly: 25, Bulk: 2, Cmps: true,
 	Kinds: []wk{{OpSet, 30}, {OpSetR, 6}, {OpDel, 14}, {OpGet, 8}, {OpGetItem, 6}, {OpExist, 3}, {OpMin, 3}, {OpMax, 3},
 		{OpTotals, 3}, {OpBadSet, 3}, {OpFlush, 8}, {OpEvict, 7}, {OpReopen, 5}, {OpMisc, 2}},
 }
 
 var profDurable = &Profile{
-	Name: "C02-durable", MinOps: 2, MaxOps: 50, NColls: 3, BigKeys: true, BigVals: true, Hostile: true, HugeNames: true, Bulk: 2,
+	Name: "C02-durable", MinOps: 2, MaxOps: 50, NColls: 3, BigKeys: true, BigVals: true, Hostile: true, HugeNames: true, Bulk: 2, Cmps: true,
 	Kinds: []wk{{OpSet, 30}, {OpSetR, 4}, {OpDel, 12}, {OpFlush, 14}, {OpEvict, 4}, {OpReopen, 9}, {OpSetColl, 4}, {OpRmColl, 3}, {OpNames, 1}, {OpRevert, 3}, {OpWrite, 2}, {OpGet, 3}},
 }
 
@@ -57,12 +57,12 @@ var profSnap = &Profile{
 }
 
 var profRange = &Profile{
-	Name: "C06-range", MinOps: 4, MaxOps: 50, NColls: 2, MemPct: 15, Cmps: true, BigKeys: true, EndOnly: 70,
-	Kinds: []wk{{OpSet, 34}, {OpDel, 6}, {OpFlush, 6}, {OpEvict, 8}, {OpReopen, 4}, {OpVisit, 42}},
+	Name: "C06-range", MinOps: 4, MaxOps: 50, NColls: 2, MemPct: 15, Cmps: true, BigKeys: true, EndOnly: 70, Snaps: true,
+	Kinds: []wk{{OpSet, 34}, {OpDel, 6}, {OpFlush, 6}, {OpEvict, 8}, {OpReopen, 4}, {OpVisit, 42}, {OpSnap, 3}, {OpSnapClose, 1}},
 }
 
 var profRevert = &Profile{
-	Name: "C08-revert", MinOps: 2, MaxOps: 40, NColls: 2, MemPct: 8, BigVals: true, Hostile: true,
+	Name: "C08-revert", MinOps: 2, MaxOps: 40, NColls: 2, MemPct: 8, BigVals: true, Hostile: true, Cmps: true,
 	Kinds: []wk{{OpSet, 30}, {OpDel, 8}, {OpFlush, 20}, {OpRevert, 20}, {OpReopen, 8}, {OpEvict, 3}, {OpSetColl, 2}, {OpRmColl, 2}, {OpWrite, 2}, {OpGet, 2}},
 }
 
@@ -145,7 +145,7 @@ func init() {
 		Assumptions: []string{"FlushRevert on the original is excluded while snapshots are open (documented to invalidate them)"}})
 	reg(&Spec{Prop: "C06", Profile: profRange,
 		NonTrivial: func(c *Case, ev map[string]int) bool { return has(ev, "visit_inside_evicted") && ev["visit"] >= 3 },
-		Rule: "contents built by generated histories (all cache states: cached, evicted, never loaded after re-open), comparator in {bytes, reverse, shortlex}; then range queries through all six APIs (VisitItemsAscend/Descend, Ex variants, IterateAscend/Descend) with targets nil/empty/present/absent/below/above, both value modes, early stop; delivered (key,priority,value) sequence == model range, no call after false, Ex depths == true depths (full-scan consistency, binary-tree validity, hook walk). Non-trivial = >=3 items, target strictly inside the key range and at least one item not cached when the visit started."})
+		Rule: "contents built by generated histories (all cache states: cached, evicted, never loaded after re-open), comparator in {bytes, reverse, shortlex}; then range queries on the collection or on a snapshot of it through all six APIs (VisitItemsAscend/Descend, Ex variants, IterateAscend/Descend) with targets nil/empty/present/absent/below/above, both value modes, early stop; delivered (key,priority,value) sequence == model range, no call after false, Ex depths == true depths (full-scan consistency, binary-tree validity, hook walk). Non-trivial = >=3 items, target strictly inside the key range and at least one item not cached when the visit started."})
 	reg(&Spec{Prop: "C08", Profile: profRevert, Opts: RunOpts{Probe: true, RevertPoints: true},
 		NonTrivial: func(c *Case, ev map[string]int) bool {
 			return (ev["flush_changed"] >= 2 && ev["revert"] >= 2) || has(ev, "revert_to_empty", "flush_changed")
